@@ -11,6 +11,7 @@ import common
 from framework import Case, Finding
 
 PROP = "C13"
+GENERATED = ['Guards']  # generated files this check's tie depends on
 LEAN_MODULES = ["Properties.C13"]
 NEEDS_DTYPES = False
 RULE = (
